@@ -260,17 +260,31 @@ def advanceToSend (idOf : Nat → Id) (nConn : Nat) (ck : Check) (k c : Nat) : C
   let ck := applyAct idOf nConn ck (.send k) s!"send {k}"
   { ck with sent := k :: ck.sent }
 
+/-- the history's next sign of life of connection c is a new handshake (not a query read from it, not a drop): the
+client side gave the connection up before the server did — what a (stale or regular) reconnect looks like from outside -/
+def nextIsAccept (rest : List Event) (c : Nat) : Bool :=
+  match rest.find? (fun e => match e with
+      | .accepted c' => c' == c | .query _ c' => c' == c | .drop c' => c' == c | _ => false) with
+  | some (.accepted _) => true
+  | _ => false
+
+/-- among the connections satisfying `p`, preferably one whose next sign of life is a new handshake -/
+def chooseConn (nConn : Nat) (rest : List Event) (p : Nat → Bool) : Option Nat :=
+  match (List.range nConn).find? fun c => p c && nextIsAccept rest c with
+  | some c => some c
+  | none => (List.range nConn).find? p
+
 /-- some connection on which a send would fail now: preferably one that already refuses sends (not Connected or
 dead socket) — using a connection the peer merely closed commits its socket to being dead from now on; as a last
 resort a connection with a spawned `go reconnect()` that has not run yet (a stale one tears down a healthy
-connection: the guard of `reconnect` only looks at the status) -/
-def failingConn (nConn : Nat) (s : State) : Option Nat :=
-  match (List.range nConn).find? fun c => (s.conn c).status ≠ .connected || !(s.conn c).sockOk with
+connection: the guard of `reconnect` only looks at the status). Within each class the history's future decides. -/
+def failingConn (nConn : Nat) (rest : List Event) (s : State) : Option Nat :=
+  match chooseConn nConn rest fun c => (s.conn c).status ≠ .connected || !(s.conn c).sockOk with
   | some c => some c
   | none =>
-    match (List.range nConn).find? fun c => !(s.conn c).reader with
+    match chooseConn nConn rest fun c => !(s.conn c).reader with
     | some c => some c
-    | none => (List.range nConn).find? fun c => (s.conn c).spawned > 0
+    | none => chooseConn nConn rest fun c => (s.conn c).spawned > 0
 
 /-- some connection on which a send succeeds, preferring one whose peer is gone (the query is lost) -/
 def sendableConn (nConn : Nat) (s : State) : Option Nat :=
@@ -316,7 +330,7 @@ def placeOne (idOf : Nat → Id) (nConn : Nat) (ck : Check) (k : Nat) : Want →
     | none => none
     | some c => some (advanceToSend idOf nConn ck k c)
   | .sendErr =>
-    match failingConn nConn ck.st with
+    match failingConn nConn ck.rest ck.st with
     | none => none
     | some c =>
       let ck := applyAct idOf nConn ck (.register k) s!"register {k}"
@@ -346,7 +360,7 @@ def placeOne (idOf : Nat → Id) (nConn : Nat) (ck : Check) (k : Nat) : Want →
 is placed as early as possible: it must precede the first failing send on its connection. A FAILING send is placed as
 late as possible (`errToo k`: just before a connection becomes Connected again, or when call k returns): the
 failure was observed at the return, and it turns the connection to Connecting for everybody else. -/
-def retryTodo (idOf : Nat → Id) (nConn : Nat) (errToo : Nat → Bool) (ck : Check) : Check :=
+def retryTodoCore (idOf : Nat → Id) (nConn : Nat) (errToo : Nat → Bool) (ck : Check) : Check :=
   ck.todo.foldl (fun ck (kw : Nat × Want) =>
     if ck.err.isSome ∨ (kw.2 = .sendErr ∧ !errToo kw.1) then ck else
     match placeOne idOf nConn ck kw.1 kw.2 with
@@ -356,9 +370,20 @@ def retryTodo (idOf : Nat → Id) (nConn : Nat) (errToo : Nat → Bool) (ck : Ch
 /-- the client side of a completed handshake (`reconnectOk`), preceded by the failing sends still to be placed -/
 def becomeConnected (idOf : Nat → Id) (nConn : Nat) (ck : Check) (c : Nat) : Check :=
   if ck.pendingOk.contains c then
-    let ck := retryTodo idOf nConn (fun _ => true) ck
+    let ck := retryTodoCore idOf nConn (fun _ => true) ck
     let ck := applyAct idOf nConn ck (.reconnectOk c) s!"reconnectOk {c}"
     { ck with pendingOk := ck.pendingOk.filter (· != c) }
+  else ck
+
+/-- `retryTodoCore`, and for a LOST query that still finds no writable connection: a connection whose new handshake the
+server has completed may have become Connected on the client by now (the query is then written to it and, as far as
+this history tells, never read) -/
+def retryTodo (idOf : Nat → Id) (nConn : Nat) (errToo : Nat → Bool) (ck : Check) : Check :=
+  let ck := retryTodoCore idOf nConn errToo ck
+  if ck.err.isNone ∧ ck.todo.any (fun kw => kw.2 = .lost) then
+    match ck.pendingOk with
+    | c :: _ => retryTodoCore idOf nConn errToo (becomeConnected idOf nConn ck c)
+    | [] => ck
   else ck
 
 /-- deliver the queued packets of connection c — all of them, or up to and including the first answer carrying
